@@ -318,7 +318,7 @@ class History:
         for attempt in range(20):
             kind = rng.choice(["edit_source", "edit_source_same_mtime", "delete_output", "delete_last_output", "garbage_output",
                                "garbage_same_mtime", "nothing", "change_args", "add_command", "remove_command", "rewire_input",
-                               "source_to_produced", "produced_to_source", "add_output", "change_link"])
+                               "source_to_produced", "source_to_produced", "produced_to_source", "add_output", "change_link"])
             r = getattr(self, "m_" + kind)()
             if r is not None:
                 self.pending.append(kind)
